@@ -22,6 +22,7 @@ type compiler struct {
 	scopes        []*scopeinfo
 	scopecnt      int
 	globalcnt     int
+	importDepth   int
 	regexpCache   sync.Map
 }
 
@@ -132,6 +133,8 @@ func (c *compiler) compile(q *Query) error {
 	return nil
 }
 
+const maxImportDepth = 1000
+
 func (c *compiler) compileImport(i *Import) error {
 	var path, alias string
 	var err error
@@ -168,6 +171,11 @@ func (c *compiler) compileImport(i *Import) error {
 		c.append(&code{op: opstore, v: c.createVariable(alias + "::" + alias[1:])})
 		return nil
 	}
+	// a module that imports itself, directly or through others, never ends
+	if c.importDepth++; c.importDepth > maxImportDepth {
+		return fmt.Errorf("modules nested too deeply: %q", path)
+	}
+	defer func() { c.importDepth-- }()
 	var q *Query
 	if moduleLoader, ok := c.moduleLoader.(interface {
 		LoadModuleWithMeta(string, map[string]any) (*Query, error)
